@@ -426,7 +426,13 @@ impl Agent {
             let ids = [kk.get_wireserver_rule_id().await.unwrap_or_default(), kk.get_imds_rule_id().await.unwrap_or_default(), kk.get_hostga_rule_id().await.unwrap_or_default()];
             let _ = tx.send((state, key_guid, key_value, rs, ids));
         });
-        let (state, key_guid, key_value, rs, rule_ids): (String, Option<String>, Option<String>, [Option<ComputedAuthorizationItem>; 3], [String; 3]) = rx.recv_timeout(Duration::from_secs(10)).unwrap_or_else(|_| vcommon::result::machinery("agent getters did not answer"));
+        let (state, key_guid, key_value, rs, rule_ids): (String, Option<String>, Option<String>, [Option<ComputedAuthorizationItem>; 3], [String; 3]) = match rx.recv_timeout(Duration::from_secs(10)) {
+            Ok(v) => v,
+            // the subject's thread has ended (its poll loop panicked): that is the subject's doing, not the harness's; the
+            // observation says so and the history reports that the key keeper stopped polling
+            Err(_) if self.join.as_ref().map_or(false, |j| j.is_finished()) => ("SUBJECT-THREAD-ENDED".to_string(), None, None, [None, None, None], [String::new(), String::new(), String::new()]),
+            Err(_) => vcommon::result::machinery("agent getters did not answer"),
+        };
         let mut rules: [Option<(String, String, bool, Vec<String>)>; 3] = [None, None, None];
         let mut decisions = [None, None, None];
         let mut lg = ConnectionLogger::new(0, 0);
@@ -582,7 +588,7 @@ fn run_history(sh: &Arc<Shared>, host: &[MockHost], hist: &[Ev]) -> HistOut {
         let acquires_before = sh.model.lock().unwrap().issued;
         release(sh);
         if !wait_parked(sh) {
-            if last {
+            if last || hist.len() > 10 {
                 problems.push(("key-keeper-stopped-polling".into(), format!("after event {:?} the key keeper did not come back with another status poll", e)));
             }
             break;
@@ -882,6 +888,35 @@ fn main() {
         }
     }
     res.cov("key_step_fault_at_state_change_histories", fault_at_change);
+    // long outages: 70 consecutive polls whose status request fails (beyond any counter or back-off a key keeper may keep),
+    // before and after the channel was enabled; the next good poll is obeyed as always
+    let mut long_outage = 0u64;
+    for f in [Fault::Status500, Fault::StatusInvalidJson] {
+        for order in 0..2 {
+            n += 1;
+            if n % wn != wi {
+                continue;
+            }
+            let mut h2 = Vec::new();
+            if order == 0 {
+                h2.push(Ev::V2Enabled(true));
+            }
+            h2.extend(std::iter::repeat(Ev::Fault(f)).take(70));
+            if order == 1 {
+                h2.push(Ev::V2Enabled(true));
+            }
+            h2.push(Ev::Noop);
+            let o = run_history(&sh, _host.as_ref().unwrap().as_slice(), &h2);
+            transitions += 1;
+            long_outage += 1;
+            polls += o.polls;
+            let case = json!({"history": h2.iter().map(ev_json).collect::<Vec<_>>(), "family": "long-outage"});
+            for (sig, what) in &o.problems {
+                res.violation(sig, what, case.clone());
+            }
+        }
+    }
+    res.cov("long_outage_histories", long_outage);
     for p in world::take_panics() {
         res.violation("panic", &p, json!({"note": "panic during exploration"}));
     }
